@@ -131,8 +131,12 @@ def _away_work(ctx, rep, n):
             w.apply(('source', away))
             done.append(('source', away))
             stateful = [i for i in w.all_items() if hasattr(type(i), 'state') and type(i).state.fset is not None]
-            for it in rnd.sample(stateful, min(len(stateful), rnd.randint(1, 4))):
-                op = ('state', it._vid, rnd.choice([1, 1, 2, 3]))
+            picks = rnd.sample(stateful, min(len(stateful), rnd.randint(1, 4)))
+            # launched drones are recalled while unloaded (state-tracking registers listen to the not-loaded messages)
+            picks += [i for i in stateful if type(i).__name__ == 'Drone' and i.state >= 2 and i not in picks
+                      and rnd.random() < 0.8]
+            for it in picks:
+                op = ('state', it._vid, 1 if type(it).__name__ == 'Drone' and rnd.random() < 0.7 else rnd.choice([1, 1, 2, 3]))
                 w.apply(op)
                 done.append(op)
             stages = []
@@ -208,7 +212,7 @@ def oracle(ctx):
     _switch_back(ctx, ctx.report, ctx.n(40, 800))
     _move_fit(ctx, ctx.report, ctx.n(20, 400))
     _move_fit(ctx, ctx.report, ctx.n(40, 600), 'switchy-fleet')
-    _away_work(ctx, ctx.report, ctx.n(30, 500))
+    _away_work(ctx, ctx.report, ctx.n(45, 600))
 
 
 def search(ctx, broken):
